@@ -235,17 +235,17 @@ def _leaf_hash(ver: int, script: bytes) -> bytes:
     return _tagged(b"TapLeaf", bytes([ver]) + ln + script)
 
 
-def tapscript_spend(r: random.Random, prog: bytes, init: list[bytes], flags: list[str], ctx: tuple[int, int, int]) -> dict[str, Any]:
-    """A taproot script-path spend of `prog` (raw bytes) in a tree of 1..3 leaves, honest or altered."""
+def tapscript_spend(r: random.Random, prog: bytes, init: list[bytes], flags: list[str], ctx: tuple[int, int, int], path_len: int | None = None) -> dict[str, Any]:
+    """A taproot script-path spend of `prog` (raw bytes) in a tree of 1..3 leaves (or at the given depth), honest or altered."""
     from btclib.script import taproot
 
-    if r.random() < 0.3:
+    if path_len is None and r.random() < 0.3:
         # OP_SUCCESSx and 0xff around the program: the pre-scan decides before anything is executed
         filler = bytes([r.choice([0x50, 0x62, 0x7E, 0x89, 0x8D, 0xBB, 0xFE, 0xFF, 0x65])])
         prog = r.choice([prog + filler, filler + prog, b"\x00\x63" + filler + b"\x68" + prog])
     ver = r.choice([0xC0, 0xC0, 0xC0, 0xC2, 0xFA])
     me = _leaf_hash(ver, prog)
-    path = [_leaf_hash(0xC0, bytes([0x51 + k])) for k in range(r.randrange(0, 3))]
+    path = [_leaf_hash(0xC0, bytes([0x51 + (k % 16)]) + bytes([k // 16])) for k in range(r.randrange(0, 3) if path_len is None else path_len)]
     k = me
     for e in path:
         k = _tagged(b"TapBranch", min(k, e) + max(k, e))
@@ -253,8 +253,8 @@ def tapscript_spend(r: random.Random, prog: bytes, init: list[bytes], flags: lis
         bytes.fromhex("c6047f9441ed7d6d3045406e95c07cd85c778e4b8cef3ca7abac09b95c709ee5")
     q, parity = taproot.output_pubkey_from_merkle_root(px, k)
     control = bytes([ver + parity]) + px + b"".join(path)
-    m = r.random()
-    why = "honest"
+    m = r.random() if path_len is None else 1.0
+    why = "honest" if path_len is None else f"honest at depth {path_len}, script of {len(prog)} bytes"
     if m < 0.08:
         control = bytes([control[0] ^ r.choice([1, 2, 4, 0x80])]) + control[1:]
         why = "control first byte altered"
@@ -269,11 +269,11 @@ def tapscript_spend(r: random.Random, prog: bytes, init: list[bytes], flags: lis
         control = control[: r.choice([0, 1, 32, 33])]
         why = "control truncated"
     witness = init + [prog, control]
-    if r.random() < 0.15:
+    if path_len is None and r.random() < 0.15:
         witness = witness + [b"\x50" + r.randbytes(3)]
         why += "+annex"
     spk = b"\x51\x20" + q
-    script_sig = b"" if r.random() < 0.95 else b"\x51"
+    script_sig = b"" if path_len is not None or r.random() < 0.95 else b"\x51"
     ok = run_spend(script_sig, spk, witness, flags, ctx)
     return {"op": "spend", "kind": "tapscript", "why": why, "scriptSig": script_sig.hex(), "spk": spk.hex(), "witness": [w.hex() for w in witness],
             "flags": flags, "ctx": ctxj(ctx), "ok": ok}
